@@ -1249,7 +1249,8 @@ def run(ctx):
                 ctx.mismatch("placement-slice-open", replay, replay["open"], out["open"])
     # ---- export, escaping, round trip
     rreqs, rmetas, rt_seen = [], [], 0
-    rt_ev = roundtrip_schema_tie(ctx, [n for n, _ in parse_schemas[:2]])
+    from .. import translate_schemas as ts_mod
+    rt_ev = roundtrip_schema_tie(ctx, list(ts_mod.RT_SCHEMAS))
     if ctx.family is not None:
         for n, e in rt_ev.items():
             ctx.family.setdefault("roundtrip_schema_part", {}).setdefault(n, {}).update(e)
